@@ -433,6 +433,35 @@ class AnnealResults(list):
             res = AnnealResults(res)
         return res
 
+    def __setitem__(self, index, value):
+        """__setitem__.
+
+        Override ``list.__setitem__`` so we also update the ``best``
+        attribute.
+
+        Parameters
+        ----------
+        index : int or slice object.
+        value : AnnealResult object, or an iterable of them for a slice.
+
+        """
+        super().__setitem__(index, value)
+        self.best = _recompute_best(self)
+
+    def __delitem__(self, index):
+        """__delitem__.
+
+        Override ``list.__delitem__`` so we also update the ``best``
+        attribute.
+
+        Parameters
+        ----------
+        index : int or slice object.
+
+        """
+        super().__delitem__(index)
+        self.best = _recompute_best(self)
+
     def clear(self):
         """clear.
 
